@@ -43,7 +43,7 @@ func runC10(c *Ctx) {
 // from function entry, not from a change of the in-memory map (shared with C08.R2).
 func c10R4(c *Ctx) {
 	const R4 = "C10.R4.returned-effects-persisted"
-	c.Expect(R4, 5)
+	c.Expect(R4, 4)
 	r := c08FindRoles(c, R4)
 	if r == nil {
 		return
